@@ -147,7 +147,7 @@ def run(ctx, P):
 
 
 META = dict(
-    bounds=dict(quick="every catalogue indicator and analysis wrapper as first member (object/dict/settings form), partner WMA(4) on T2, a third member = same class on T2/T3; Hexital-level plain / T2 / T2+fill / HA / 3-minute lifespan / fill-only over a stream with a three-bucket hole; n = warm-up+3..4 candles; schedules: 2 preloaded + singles, chunk + single from empty, all at construction",
+    bounds=dict(quick="every catalogue indicator and analysis wrapper as first member (object/dict/settings form), partner WMA(4) on T2, a third member = same class on T2/T3; Hexital-level plain / T2 / T2+fill / HA / 3-minute lifespan / fill-only over a stream with a three-bucket hole; n = warm-up+3..4 candles; schedules: 2 preloaded + singles, chunk + single from empty, all at construction; third-member timeframe also spelled in lower case; a member on T4 nested in a Hexital on T2 (non-branching indicators, 9-17 candles); every dict handed over is edited by the caller after construction",
                 thorough="all three forms x all five Hexital-level settings for every indicator, n+1"),
     stubs=["exact real arithmetic, uninterpreted rounding and products"],
     assumptions=["Hexital-level timeframe is combined only with members that have no timeframe of their own (effective configuration = the Hexital's)"],
